@@ -45,6 +45,9 @@ type WorkerResult struct {
 	Unknown     int               `json:"unknown"`
 	SolverErrs  int               `json:"solver_errors"`
 	SolverS     float64           `json:"solver_s"`
+	SlowQ       int               `json:"slow_queries"`
+	SlowS       float64           `json:"slow_queries_s"`
+	MaxQS       float64           `json:"max_query_s"`
 	WallS       float64           `json:"wall_s"`
 	LoadS       float64           `json:"load_s"`
 	Terms       int               `json:"terms"`
@@ -142,6 +145,7 @@ func runWorker(p *load.Program, loadS float64, harness string, bounds map[string
 	st := s.Stats
 	res.Queries, res.Sat, res.Unsat, res.Unknown, res.SolverErrs = st.Queries, st.Sat, st.Unsat, st.Unknown, st.Errors
 	res.SolverS = float64(st.SolverNs) / 1e9
+	res.SlowQ, res.SlowS, res.MaxQS = st.Slow, float64(st.SlowNs)/1e9, float64(st.MaxNs)/1e9
 	res.WallS = time.Since(t0).Seconds()
 	res.Terms = term.NumTerms()
 	res.TimedOut = ex.TimedOut
